@@ -109,6 +109,14 @@ def run(E: Engine, rep: Report, tier: str) -> dict:
                 if t[0] == "cmp" and t[1] in ("Gt", "Lt", "GtE", "LtE") and _mg5(t, "max_radial_distance") and _mg5(t, "COORD_PRECISION"):
                     tol = True
     rep.check(tol, "GUARD", "BaseDevice._validate_radial_distance|tolerance-of-the-coordinate-precision", "`norm - max_radial_distance > 10 ** (-COORD_PRECISION)`", "the radial distance is compared with max_radial_distance exactly, while layouts hold coordinates rounded to COORD_PRECISION decimals: an atom at the maximum radius lands up to 0.7e-6 um outside once it sits on a layout, so the register with_automatic_layout(device) returns for a valid register is rejected by that same device (the distance check already allows 1e-6)", E.where(vrd))
+    # the radial distance is the distance FROM THE ORIGIN (the centre of the device's field of view): the norm is taken
+    # of the coordinates as given -- not of coordinates shifted by their mean / first point / any other reference
+    norms = [t for l in _Sg5(E, vrd).log for v_ in (l.value, l.cond) if v_ is not None for t in _sym.subterms(v_) if t[0] == "call" and t[1][0] == "attr" and t[1][2] == "norm" and t[2]]
+    if not norms:
+        rep.excepted("GUARD", "BaseDevice._validate_radial_distance|distance-from-the-origin", "no norm(...) call recognised in the radial check: not decided", E.where(vrd))
+    for t in norms[:1]:
+        shifted = [u for u in _sym.subterms(t[2][0]) if u[0] in ("add", "sub") or (u[0] == "bin" and u[1] in ("Sub", "Add")) or (u[0] == "call" and u[1][0] == "attr" and u[1][2] in ("mean", "average", "median"))]
+        rep.check(not shifted, "GUARD", "BaseDevice._validate_radial_distance|distance-from-the-origin", "norm of the coordinates themselves", f"the radial check takes the norm of `{_shg5(t[2][0], 100)}`: the coordinates are shifted before the distance is taken, so an off-centre register is measured from its own barycentre -- atoms beyond max_radial_distance are accepted (a single atom anywhere) and lopsided valid registers are refused", E.where(vrd))
     if n_cap < 2:
         raise AnalysisError(f"anchor: the layout-capacity comparisons (validate_layout_filling, __post_init__) were found {n_cap} time(s), expected 2")
 
